@@ -91,6 +91,38 @@ def _module_job(job):
     return res
 
 
+def validation_obligation(res: Result, tier: str, seed: int):
+    """the trusted base of engine U, re-validated on every run: the symbolic CEK machine in concrete mode vs the native evaluator on
+    the repository's conformance programs, on random closed terms, and symbolic paths replayed natively (uplcsym/validate.py)"""
+    import re
+    import subprocess
+    import sys
+    import time
+    from vlib.common import VERIF
+    args = ["--limit", "500", "--random", "100", "--symrandom", "30"] if tier == "quick" else ["--random", "300", "--symrandom", "80"]
+    t0 = time.time()
+    ob = Obligation("uplcsym/validation", "discharged", "")
+    try:
+        p = subprocess.run([sys.executable, "-m", "uplcsym.validate", "--seed", str(seed)] + args, cwd=VERIF, capture_output=True, text=True, timeout=3600)
+        m = re.search(r"VALIDATE conformance ok=(\d+) bad=(\d+) skipped=(\d+) ; random ok=(\d+) bad=(\d+) skipped=(\d+) ; symbolic ok=(\d+) bad=(\d+) skipped=(\d+)", p.stdout)
+        if not m:
+            ob.status, ob.detail = "undecided", f"validation did not report: {(p.stdout + p.stderr)[-300:]}"
+        else:
+            cok, cbad, csk, rok, rbad, rsk, sok, sbad, ssk = map(int, m.groups())
+            ob.detail = (f"symbolic CEK vs native evaluator: conformance {cok} agree / {cbad} disagree / {csk} skipped (unparsable or unmodelled), "
+                         f"random terms {rok}/{rbad}, symbolic paths replayed {sok}/{sbad}")
+            res.extra["uplcsym_validation"] = {"conformance_ok": cok, "conformance_bad": cbad, "random_ok": rok, "random_bad": rbad, "symbolic_ok": sok, "symbolic_bad": sbad}
+            if cbad or rbad or sbad:
+                ob.status = "undecided"
+                bad_lines = [l for l in p.stdout.splitlines() if l.startswith("BAD")][:3]
+                res.mismatches.append(f"uplcsym disagrees with the native evaluator: {bad_lines}")
+            ob.witness = cok > 0
+    except Exception as e:  # the validation harness failing is not a verdict about the property
+        ob.status, ob.detail = "undecided", f"validation harness failed: {e}"
+    ob.solver_s = round(time.time() - t0, 1)
+    res.add(ob)
+
+
 def run(tier: str, seed: int, only=None) -> Result:
     res = Result("C06", tier, seed, "model_checking")
     depth, width = (3, 2) if tier == "quick" else (4, 3)
@@ -106,6 +138,7 @@ def run(tier: str, seed: int, only=None) -> Result:
     kf = KnownFindings()
     mods = [m for m in U.corpus(tier, seed) if not only or only in m[0]]
     U.merge(res, U.pmap(_module_job, [(m, tier, seed, depth, width, builds) for m in U.chunked(mods)]))
+    validation_obligation(res, tier, seed)
     res.extra.setdefault("programs", 0)
     res.extra.setdefault("disagreements_checked", 0)
     from props import common_post
